@@ -331,6 +331,22 @@ fn scenario_pairs() -> Vec<(&'static str, &'static str, &'static str)> {
             r##"<svg><text xy="0" text="100000000.1"/><text xy="0" text="100000001.1"/></svg>"##),
         ("loop-variable-digits/tiny-start", r##"<svg><loop count="1" loop-var="i" start="0.0000000001"><rect wh="{{$i * 10000000000}}"/></loop></svg>"##,
             r##"<svg><rect wh="{{0.0000000001 * 10000000000}}"/></svg>"##),
+        // seventh round (seed C16d): what the opening tag says is worked out once, on entry, even when the body changes a
+        // variable it mentions - N copies for the N the loop started with
+        ("header-once/count-shrinking", r##"<svg><var n="4"/><loop count="$n"><var n="{{$n - 1}}"/><rect xy="0 {{$n * 10}}" wh="5"/></loop><rect xy="20 {{$n * 10}}" wh="3"/></svg>"##,
+            r##"<svg><var n="4"/><var n="{{$n - 1}}"/><rect xy="0 {{$n * 10}}" wh="5"/><var n="{{$n - 1}}"/><rect xy="0 {{$n * 10}}" wh="5"/><var n="{{$n - 1}}"/><rect xy="0 {{$n * 10}}" wh="5"/><var n="{{$n - 1}}"/><rect xy="0 {{$n * 10}}" wh="5"/><rect xy="20 {{$n * 10}}" wh="3"/></svg>"##),
+        ("header-once/count-growing", r##"<svg><var n="2"/><loop count="$n"><var n="{{$n + 1}}"/><rect xy="0 {{$n * 10}}" wh="5"/></loop><rect xy="20 {{$n * 10}}" wh="3"/></svg>"##,
+            r##"<svg><var n="2"/><var n="{{$n + 1}}"/><rect xy="0 {{$n * 10}}" wh="5"/><var n="{{$n + 1}}"/><rect xy="0 {{$n * 10}}" wh="5"/><rect xy="20 {{$n * 10}}" wh="3"/></svg>"##),
+        ("header-once/nested-inner-count", r##"<svg><var left="2"/><loop count="2" loop-var="o"><loop count="$left"><var left="{{$left - 1}}"/><rect xy="{{$o * 20}} {{$left * 10}}" wh="5"/></loop><var left="3"/></loop></svg>"##,
+            r##"<svg><var left="2"/><var o="0"/><var left="{{$left - 1}}"/><rect xy="{{$o * 20}} {{$left * 10}}" wh="5"/><var left="{{$left - 1}}"/><rect xy="{{$o * 20}} {{$left * 10}}" wh="5"/><var left="3"/><var o="1"/><var left="{{$left - 1}}"/><rect xy="{{$o * 20}} {{$left * 10}}" wh="5"/><var left="{{$left - 1}}"/><rect xy="{{$o * 20}} {{$left * 10}}" wh="5"/><var left="{{$left - 1}}"/><rect xy="{{$o * 20}} {{$left * 10}}" wh="5"/><var left="3"/></svg>"##),
+        ("header-once/count-is-own-loop-variable", r##"<svg><var i="3"/><loop count="$i" loop-var="i"><rect xy="{{$i * 10}} 0" wh="5"/></loop></svg>"##,
+            r##"<svg><var i="3"/><var i="0"/><rect xy="{{$i * 10}} 0" wh="5"/><var i="1"/><rect xy="{{$i * 10}} 0" wh="5"/><var i="2"/><rect xy="{{$i * 10}} 0" wh="5"/></svg>"##),
+        ("header-once/start-and-step", r##"<svg><var s="1" t="2"/><loop count="3" loop-var="i" start="$s" step="$t"><var s="10" t="20"/><rect xy="{{$i * 10}} 0" wh="5"/></loop></svg>"##,
+            r##"<svg><var s="1" t="2"/><var i="1"/><var s="10" t="20"/><rect xy="{{$i * 10}} 0" wh="5"/><var i="3"/><var s="10" t="20"/><rect xy="{{$i * 10}} 0" wh="5"/><var i="5"/><var s="10" t="20"/><rect xy="{{$i * 10}} 0" wh="5"/></svg>"##),
+        ("header-once/for-data", r##"<svg><var lst="1, 2, 3"/><for data="$lst" var="v"><var lst="9"/><rect xy="{{$v * 10}} 0" wh="5"/></for></svg>"##,
+            r##"<svg><var lst="1, 2, 3"/><var v="1"/><var lst="9"/><rect xy="{{$v * 10}} 0" wh="5"/><var v="2"/><var lst="9"/><rect xy="{{$v * 10}} 0" wh="5"/><var v="3"/><var lst="9"/><rect xy="{{$v * 10}} 0" wh="5"/></svg>"##),
+        ("header-once/loop-variable-name", r##"<svg><var nm="a"/><loop count="2" loop-var="$nm"><var nm="b"/><rect xy="{{$a * 10}} 0" wh="5"/></loop></svg>"##,
+            r##"<svg><var nm="a"/><var a="0"/><var nm="b"/><rect xy="{{$a * 10}} 0" wh="5"/><var a="1"/><var nm="b"/><rect xy="{{$a * 10}} 0" wh="5"/></svg>"##),
         ("fractional-step/for-items", r##"<svg><for data="0.0625, 0.0004" var="v"><rect xy="{{$v * 10000}} 0" wh="5"/></for></svg>"##,
             r##"<svg><rect xy="{{0.0625 * 10000}} 0" wh="5"/><rect xy="{{0.0004 * 10000}} 0" wh="5"/></svg>"##),
     ]
@@ -442,7 +458,7 @@ pub fn run(tier: Tier) -> i32 {
     let tier = Tier::Thorough;
     let ps = programs(tier);
     rep.set("rule", json!("Programs = loop/conditional form x body x wrapping. Forms: count 0..3 without and with loop-var under 5 start/step combinations (fractional, negative), while and until over a counter with bound 0/1/3, for over 4 data lists (literal, variable, single, strings) with and without idx-var, if with 4 tests. Bodies: all sequences of <= 2 (thorough 3) items from {shape relative to '^', shape using the loop variable, id built from the loop variable, text using it, accumulating <var>, <g> with a local, nested loop, nested if}. Wrapping: in <svg>, inside <g>, the construct twice in a row (state carried across). Each program is followed by a probe of all variables and a '^'-relative shape. The twin is produced by a mechanical unroller (iteration counts from the generator's own counter arithmetic); both are executed and the whitespace-insensitive canonical event streams (all elements, attributes, text, root viewBox/size) must be equal. Non-trivial = both Ok, equal, more than 8 events."));
-    rep.set("also_later", json!("Round 5 added pairs: a clipPath emptied by a control element, fractional loop steps and <for> items, a word break after an empty control element."));
+    rep.set("also_later", json!("Round 5 added pairs: a clipPath emptied by a control element, fractional loop steps and <for> items, a word break after an empty control element. Round 7 (seed C16d) added 7 pairs on the opening tag being worked out once: count / start / step / <for> data / the loop variable's name mentioning a variable the body changes, also as the inner loop of a nested pair."));
     rep.set("also", json!("Also 7 hand-written (program, unrolling) pairs: <use> chains built by loop and for, a condition value below the output rounding, and four bodies containing a forward reference (if re-tested, var update repeated, while making fewer passes, references within one pass)."));
     let st = run_space(ps.len(), |i| check(&ps[i]));
     rep.set("programs", json!(ps.len()));
